@@ -38,6 +38,14 @@ def ampSpecFull (fracs : List (Option Rat)) (thr k : Rat) : Except Err (List Boo
   else if !fracs.isEmpty && decide (k < 0) then .error .valueError
   else .ok (ampSpec fracs thr k)
 
+def decFlank (v : V) : Option Flank :=
+  match v with | .atom "rise" => some .rise | .atom "decay" => some .decay | _ => none
+def decFirst (v : V) : Option FirstExt :=
+  match v with
+  | .atom "peak" => some .peak | .atom "trough" => some .trough | .atom "None" => some .none
+  | .atom _ => some .invalid | _ => none
+def encPairLists {α β} (f : α → V) (g : β → V) (p : List α × List β) : V := .list [encList f p.1, encList g p.2]
+
 def handle (args : List V) : V :=
   match args with
   | [.atom "ping"] => .atom "pong"
@@ -86,10 +94,56 @@ def handle (args : List V) : V :=
     match b.opt? V.rat?, t.opt? V.rat? with
     | some b, some t => let r := b.getD (t.getD 3); .list [encRat r, encRat r]
     | _, _ => bad "minn.spec"
+  | [.atom "detargs.model", k, d] =>
+    match k.rat?, d.opt? V.rat? with
+    | some k, some d => let r := detectorArgs k d
+                        .list [match r.1 with | some v => encRat v | none => .atom "None", match r.2 with | some v => encRat v | none => .atom "None"]
+    | _, _ => bad "detargs.model"
+  | [.atom "detargs.spec", k, d] =>
+    match k.rat?, d.opt? V.rat? with
+    | some k, some d => let r := detectorArgsSpec k d
+                        .list [match r.1 with | some v => encRat v | none => .atom "None", match r.2 with | some v => encRat v | none => .atom "None"]
+    | _, _ => bad "detargs.spec"
   | [.atom "bfguard.model", fs, lo, hi] =>
     match fs.rat?, lo.rat?, hi.rat? with
     | some fs, some lo, some hi => encExcept (fun _ => .atom "unit") (burstFractionGuard fs lo hi)
     | _, _, _ => bad "bfguard.model"
+  -- C03
+  | [.atom "flank.model", seg, f] =>
+    match seg.listOf? V.rat?, decFlank f with
+    | some seg, some f => if seg.isEmpty then encErr .indexError else .list [.atom "ok", encNat (flankMid seg f)]
+    | _, _ => bad "flank.model"
+  | [.atom "flank.spec", seg, f] =>
+    match seg.listOf? V.rat?, decFlank f with
+    | some seg, some f => if seg.isEmpty then encErr .indexError else .list [.atom "ok", encNat (flankMidSpec seg f)]
+    | _, _ => bad "flank.spec"
+  | [.atom "zerox.model", sig, pk, tr] =>
+    match sig.listOf? V.rat?, pk.listOf? V.nat?, tr.listOf? V.nat? with
+    | some sig, some pk, some tr => encExcept (encPairLists encNat encNat) (findZerox sig pk tr)
+    | _, _, _ => bad "zerox.model"
+  | [.atom "zerox.spec", sig, pk, tr] =>
+    match sig.listOf? V.rat?, pk.listOf? V.nat?, tr.listOf? V.nat? with
+    | some sig, some pk, some tr =>
+      match pk.head?, tr.head? with
+      | some p0, some t0 =>
+        let seq := interleave (decide (p0 < t0)) pk tr
+        if seq.length = pk.length + tr.length && validSeq sig.length seq then
+          .list [.atom "ok", .list [encList encNat (risesSpec sig seq), encList encNat (decaysSpec sig seq)]]
+        else .atom "invalid-seq"
+      | _, _ => .atom "invalid-seq"
+    | _, _, _ => bad "zerox.spec"
+  -- C02
+  | [.atom "extrema.model", sig, pad, b, bd, fe] =>
+    match sig.listOf? V.rat?, pad.nat?, b.bits?, bd.int?, decFirst fe with
+    | some sig, some pad, some b, some bd, some fe =>
+      encExcept (encPairLists encInt encInt) (findExtrema sig pad b bd fe)
+    | _, _, _, _, _ => bad "extrema.model"
+  | [.atom "extrema.spec", sig, pad, b, bd, fe] =>
+    match sig.listOf? V.rat?, pad.nat?, b.bits?, bd.int?, decFirst fe with
+    | some sig, some pad, some b, some bd, some fe =>
+      if (risingX b).isEmpty || (decayingX b).isEmpty then .atom "no-crossings"
+      else encExcept (encPairLists encInt encInt) (findExtremaSpec sig pad b bd fe)
+    | _, _, _, _, _ => bad "extrema.spec"
   | _ => bad "unknown-command"
 
 partial def loop (hin : IO.FS.Stream) (hout : IO.FS.Stream) : IO Unit := do
